@@ -1619,6 +1619,315 @@ fn check_macro_in(c: &MacroCase, how: &str, parser: &mut ansi::Parser, buf: &mut
 }
 
 // ------------------------------------------------------------------------------------------------
+// (vi) scalar streams: parser input is a `char`, a front end on a UTF-8 connection feeds every Unicode scalar value
+// ------------------------------------------------------------------------------------------------
+
+const EMU_ANSILIKE: u16 = 0x01FF; // ansi (5 configurations), avatar, pcboard, ctrla, renegade: all fall back to the ANSI parser
+const EMU_ALL: u16 = 0x3FFF;
+const EMU_AVT: u16 = 1 << 5;
+const EMU_PCB: u16 = 1 << 6;
+const EMU_CTRLA: u16 = 1 << 7;
+const EMU_REN: u16 = 1 << 8;
+const EMU_PET: u16 = 1 << 9;
+const EMU_ATA: u16 = 1 << 10;
+const EMU_VD: u16 = (1 << 11) | (1 << 12);
+
+/// placeholder byte of the templates: replaced by the character under test (every other byte is fed as the char of that value)
+const PH: u8 = 0xF8;
+
+/// (emulations, template): where the wide character stands relative to the lead-in bytes of the emulation
+const SCALAR_TEMPLATES: &[(u16, &[u8])] = &[
+    (EMU_ALL, b"\xF8"),
+    (EMU_ALL, b"ab\xF8cd"),
+    (EMU_ALL, b"\xF8\xF8\xF8\r\n\xF8"),
+    (EMU_ALL, b"\x1b\xF8"),
+    (EMU_ALL, b"\x1b\xF8A"),
+    (EMU_ALL, b"\xF8\x08\x7f"),
+    (EMU_ALL, b"\x0c\xF8"),
+    // ANSI: escape, CSI parameter / intermediate / final position, REP target and count, strings, macros, music
+    (EMU_ANSILIKE, b"\x1b[\xF8"),
+    (EMU_ANSILIKE, b"\x1b[\xF8m"),
+    (EMU_ANSILIKE, b"\x1b[1;\xF8;2m"),
+    (EMU_ANSILIKE, b"\x1b[1\xF8"),
+    (EMU_ANSILIKE, b"\x1b[?\xF8h"),
+    (EMU_ANSILIKE, b"\x1b[?25\xF8"),
+    (EMU_ANSILIKE, b"\x1b[1 \xF8"),
+    (EMU_ANSILIKE, b"\x1b[1$\xF8"),
+    (EMU_ANSILIKE, b"\x1b[1*\xF8"),
+    (EMU_ANSILIKE, b"\x1b[=\xF8"),
+    (EMU_ANSILIKE, b"\x1b[<\xF8"),
+    (EMU_ANSILIKE, b"\x1b[!\xF8"),
+    (EMU_ANSILIKE, b"\x1b\xF8[1m"),
+    (EMU_ANSILIKE, b"\xF8\x1b[3b"),
+    (EMU_ANSILIKE, b"a\xF8\x1b[2b\x1b[1;1H\x1b[1@\x1b[1P"),
+    (EMU_ANSILIKE, b"a\x1b[\xF8b"),
+    (EMU_ANSILIKE, b"\x1b[0;\xF8 D"),
+    (EMU_ANSILIKE, b"\x1b[\xF8;1;1;2;2$x"),
+    (EMU_ANSILIKE, b"\x1b[65;1;1;2;\xF8$x"),
+    (EMU_ANSILIKE, b"\x1bP1;0;0!za\xF8b\x1b\\\x1b[1*z"),
+    (EMU_ANSILIKE, b"\x1bP1;0;0!z\xF8\x1b\\\x1b[1*z\x1b[1*z"),
+    (EMU_ANSILIKE, b"\x1bP1;0;1!z4\xF841\x1b\\\x1b[1*z"),
+    (EMU_ANSILIKE, b"\x1bP1;0;1!z\xF8141\x1b\\\x1b[1*z"),
+    (EMU_ANSILIKE, b"\x1bP1;0;1!z41!3;\xF8;42\x1b\\\x1b[1*z"),
+    (EMU_ANSILIKE, b"\x1bP1;0;1!z41!\xF8;42;\x1b\\\x1b[1*z"),
+    (EMU_ANSILIKE, b"\x1bP1;\xF8;0!zab\x1b\\\x1b[1*z"),
+    (EMU_ANSILIKE, b"\x1bP\xF8"),
+    (EMU_ANSILIKE, b"\x1bPab\x1b\xF8"),
+    (EMU_ANSILIKE, b"\x1bPab\x1b[\xF8*z"),
+    (EMU_ANSILIKE, b"\x1bPCTerm:Font:\xF8:AAAA\x1b\\"),
+    (EMU_ANSILIKE, b"\x1bPCTerm:Font:1:AA\xF8A\x1b\\"),
+    (EMU_ANSILIKE, b"\x1b]8;;http://\xF8\x1b\\x\x1b]8;;\x1b\\"),
+    (EMU_ANSILIKE, b"\x1b]4;1;rgb:\xF8/00/00\x1b\\"),
+    (EMU_ANSILIKE, b"\x1b]\xF8"),
+    (EMU_ANSILIKE, b"\x1b]8\x1b\xF8"),
+    (EMU_ANSILIKE, b"\x1b_\xF8\x1b\\"),
+    (EMU_ANSILIKE, b"\x1b_a\x1b\xF8"),
+    (EMU_ANSILIKE, b"\x1b[M\xF8\x0e"),
+    (EMU_ANSILIKE, b"\x1b[MT120O3\xF8C\x0e"),
+    (EMU_ANSILIKE, b"\x1b[N\xF8\x0e"),
+    (EMU_ANSILIKE, b"\x1b[|\xF8\x0e"),
+    // Avatar: command byte, colour, repeated character, repeat count, goto
+    (EMU_AVT, b"\x16\xF8"),
+    (EMU_AVT, b"\x16\x01\xF8x"),
+    (EMU_AVT, b"\x19\xF8\x03"),
+    (EMU_AVT, b"\x19a\xF8"),
+    (EMU_AVT, b"\x16\x08\xF8\xF8x"),
+    (EMU_AVT, b"\x16\x08\x02\xF8x"),
+    (EMU_AVT, b"\x19\x1b\x02[\xF8"),
+    // PCBoard @ codes
+    (EMU_PCB, b"@\xF8"),
+    (EMU_PCB, b"@X\xF80x"),
+    (EMU_PCB, b"@X0\xF8x"),
+    (EMU_PCB, b"@X\xF8\xF8x"),
+    (EMU_PCB, b"@CLS\xF8@"),
+    (EMU_PCB, b"@\xF8X07"),
+    // Ctrl-A codes
+    (EMU_CTRLA, b"\x01\xF8"),
+    (EMU_CTRLA, b"\x01\xF8\x01Rx"),
+    (EMU_CTRLA, b"\x01R\xF8"),
+    // Renegade pipe codes
+    (EMU_REN, b"|\xF80x"),
+    (EMU_REN, b"|0\xF8x"),
+    (EMU_REN, b"|\xF8\xF8"),
+    (EMU_REN, b"|1\xF8"),
+    // PETSCII control codes
+    (EMU_PET, b"\x12\xF8"),
+    (EMU_PET, b"\x0e\xF8\x8e\xF8"),
+    (EMU_PET, b"\x9d\xF8"),
+    (EMU_PET, b"\xff\xF8"),
+    (EMU_PET, b"\xF8\x14\x94"),
+    (EMU_PET, b"\x1c\xF8\x05\xF8"),
+    // ATASCII: escape, inverse video, line insert / delete
+    (EMU_ATA, b"\x1b\x1b\xF8"),
+    (EMU_ATA, b"\x1b\xF8\x1b\xF8"),
+    (EMU_ATA, b"\x7d\xF8"),
+    (EMU_ATA, b"\xF8\xfe\xff"),
+    (EMU_ATA, b"\x9b\xF8\x9d\x9c"),
+    // Viewdata / Mode 7: ESC codes, graphics, hold graphics
+    (EMU_VD, b"\x1bA\xF8"),
+    (EMU_VD, b"\x1e\xF8"),
+    (EMU_VD, b"\x1bW\xF8"),
+    (EMU_VD, b"\x1bW\x1b^\xF8\x1bA\xF8"),
+    (EMU_VD, b"\x1bM\xF8\r\n\xF8"),
+    (EMU_VD, b"\x1b]\xF8"),
+];
+
+/// Avatar templates in which the character under test is a repeat count or a screen coordinate. The pinned engine takes `ch as usize` /
+/// `ch as i32` there without a bound (1.1 million repetitions; a document buffer allocates 1.1 million rows for a goto): that is a
+/// resource defect (C03's subject) which would bury this check in heap-cap kills, so these positions get small wide characters only.
+const SCALAR_NUMERIC_ROLE: &[&[u8]] = &[b"\x19a\xF8", b"\x16\x08\xF8\xF8x", b"\x16\x08\x02\xF8x"];
+const SCALAR_SMALL: &[u32] = &[0x100, 0x7FF, 0x800];
+
+fn scalar_numeric_role(template: u16) -> bool {
+    SCALAR_NUMERIC_ROLE.contains(&SCALAR_TEMPLATES[template as usize % SCALAR_TEMPLATES.len()].1)
+}
+
+/// characters of the table: boundaries of the encoding forms and supplementary characters whose low 16 bits are a surrogate
+/// (a parser that narrows its input to 16 bits sees 0xD800..0xDFFF; ATASCII subtracts 0x80 first)
+fn scalar_points() -> Vec<u32> {
+    let mut v = vec![0x100, 0x7FF, 0x800, 0xD7FF, 0xE000, 0xFFFD, 0xFFFE, 0xFFFF, 0x1_0000, 0x1_D800, 0x1_DFFF, 0x2_D800, 0x2_DBFF, 0x2_DC00, 0x2_DFFF, 0x10_FFFF];
+    for k in [1u32, 2, 0x10] {
+        for low in [0xD800u32, 0xD880, 0xDBFF, 0xDC00, 0xDFFF, 0xE07F] {
+            let c = (k << 16) | low;
+            if !v.contains(&c) {
+                v.push(c);
+            }
+        }
+    }
+    v
+}
+
+const BUFFER_TYPES: &[&str] = &["CP437", "Unicode", "Petscii", "Atascii", "Viewdata"];
+
+fn buffer_type(i: u8) -> icy_engine::BufferType {
+    match i % 5 {
+        0 => icy_engine::BufferType::CP437,
+        1 => icy_engine::BufferType::Unicode,
+        2 => icy_engine::BufferType::Petscii,
+        3 => icy_engine::BufferType::Atascii,
+        _ => icy_engine::BufferType::Viewdata,
+    }
+}
+
+/// file extension whose loader decodes a BOM-marked file as UTF-8 and feeds the emulation's parser
+fn emu_file_ext(emu: u8) -> Option<&'static str> {
+    match emu {
+        0 => Some("ans"),
+        5 => Some("avt"),
+        6 => Some("pcb"),
+        7 => Some("msg"),
+        8 => Some("an1"),
+        13 => Some("asc"),
+        _ => None,
+    }
+}
+
+#[derive(Clone, Debug, Hash, Serialize, Deserialize)]
+struct ScalarPiece {
+    /// index into SCALAR_TEMPLATES (taken modulo; templates of other emulations are legal input too)
+    template: u16,
+    /// the character put at the placeholder positions (a non-scalar number is replaced by U+FFFD: the input domain is `char`)
+    ch: u32,
+}
+
+#[derive(Clone, Debug, Hash, Serialize, Deserialize)]
+struct ScalarCase {
+    /// index into icyv::stream::EMUS
+    emu: u8,
+    /// index into BUFFER_TYPES
+    btype: u8,
+    /// document buffer (is_terminal_buffer = false) instead of a terminal
+    doc: bool,
+    /// the chars go through the file loader of the emulation (UTF-8 BOM + UTF-8 text) instead of print_char; only where emu_file_ext is Some
+    file: bool,
+    pieces: Vec<ScalarPiece>,
+}
+
+fn scalar_chars(c: &ScalarCase) -> Vec<char> {
+    let mut out = Vec::new();
+    for p in &c.pieces {
+        let x = char::from_u32(p.ch).unwrap_or('\u{FFFD}');
+        for b in SCALAR_TEMPLATES[p.template as usize % SCALAR_TEMPLATES.len()].1 {
+            out.push(if *b == PH { x } else { *b as char });
+        }
+    }
+    out
+}
+
+/// (template, emulation) pairs of the table
+fn scalar_pairs() -> Vec<(u16, u8)> {
+    let mut v = Vec::new();
+    for (t, (mask, _)) in SCALAR_TEMPLATES.iter().enumerate() {
+        for emu in 0..stream::EMUS.len() as u8 {
+            if mask & (1 << emu) != 0 {
+                v.push((t as u16, emu));
+            }
+        }
+    }
+    v
+}
+
+/// table: (template, emulation) x character x (5 buffer types x terminal/document, + the file route where there is one)
+fn scalar_table(pairs: &[(u16, u8)], points: &[u32], i: u64) -> ScalarCase {
+    let variant = i % 11;
+    let ch = points[((i / 11) % points.len() as u64) as usize];
+    let (template, emu) = pairs[((i / 11 / points.len() as u64) % pairs.len() as u64) as usize];
+    let file = variant == 10 && emu_file_ext(emu).is_some();
+    // emulations without a BOM-aware loader use the slot for a second template instance on a Unicode document
+    let (btype, doc) = if variant == 10 { (1, true) } else { ((variant % 5) as u8, variant >= 5) };
+    let ch = if scalar_numeric_role(template) { SCALAR_SMALL[((i / 11) % SCALAR_SMALL.len() as u64) as usize] } else { ch };
+    let mut pieces = vec![ScalarPiece { template, ch }];
+    if variant == 10 && !file {
+        pieces.push(ScalarPiece { template, ch });
+    }
+    ScalarCase { emu, btype, doc, file, pieces }
+}
+
+fn scalar_strategy() -> BoxedStrategy<ScalarCase> {
+    let points = scalar_points();
+    let ch = prop_oneof![
+        6 => prop::sample::select(points),
+        4 => (1u32..=0x10, 0xD700u32..=0xE100).prop_map(|(k, low)| (k << 16) | low),
+        2 => 0x1_0000u32..=0x10_FFFF,
+        2 => 0x100u32..=0xFFFF,
+        1 => 0u32..=0xFF,
+    ];
+    let piece = (0u16..SCALAR_TEMPLATES.len() as u16, ch).prop_map(|(template, ch)| ScalarPiece { template, ch });
+    (0u8..stream::EMUS.len() as u8, any::<u16>(), 0u8..5, any::<bool>(), prop::bool::weighted(0.2), vec(piece, 1..=4))
+        .prop_map(|(emu, tsel, btype, doc, file, mut pieces)| {
+            // the first piece is a template of the emulation (the others may be any)
+            let own: Vec<u16> = SCALAR_TEMPLATES.iter().enumerate().filter(|(_, (m, _))| m & (1 << emu) != 0).map(|(t, _)| t as u16).collect();
+            pieces[0].template = own[pick(tsel, own.len())];
+            for p in pieces.iter_mut() {
+                if emu == 5 && scalar_numeric_role(p.template) && p.ch > 0x800 {
+                    p.ch = 0x100 + p.ch % 0x701;
+                }
+            }
+            ScalarCase { emu, btype, doc, file: file && emu_file_ext(emu).is_some(), pieces }
+        })
+        .boxed()
+}
+
+fn scalar_src(c: &ScalarCase) -> String {
+    // one class per parser (the ANSI configurations differ only in music handling)
+    let name = stream::EMUS[c.emu as usize % stream::EMUS.len()];
+    format!("scalar_stream:{}{}", name.split('+').next().unwrap_or(name), if c.file { ":file" } else { "" })
+}
+
+fn check_scalar(c: &ScalarCase) -> Verdict {
+    let emu = c.emu % stream::EMUS.len() as u8;
+    let chars = scalar_chars(c);
+    let src = scalar_src(c);
+    let shown: String = chars.iter().take(60).map(|ch| if (' '..='~').contains(ch) { ch.to_string() } else { format!("\\u{{{:x}}}", *ch as u32) }).collect();
+    let wide = chars.iter().filter(|ch| **ch as u32 > 0xFF).count();
+    let surrogate_low = chars.iter().any(|ch| *ch as u32 > 0xFFFF && (0xD800..=0xE07F).contains(&(*ch as u32 & 0xFFFF)));
+    let ext = if c.file { emu_file_ext(emu) } else { None };
+    let run = std::panic::catch_unwind(std::panic::AssertUnwindSafe(|| -> Result<Buffer, String> {
+        if let Some(ext) = ext {
+            let mut bytes = vec![0xEF, 0xBB, 0xBF];
+            bytes.extend(chars.iter().collect::<String>().into_bytes());
+            Buffer::from_bytes(Path::new(&format!("x.{ext}")), false, &bytes).map_err(|e| e.to_string())
+        } else {
+            let (w, h) = if emu == stream::EMU_VIEWDATA || emu == stream::EMU_MODE7 { (40, 24) } else { (80, 25) };
+            let mut buf = Buffer::new((w, h));
+            buf.is_terminal_buffer = !c.doc;
+            buf.buffer_type = buffer_type(c.btype);
+            let mut caret = icy_engine::Caret::default();
+            let mut parser = stream::make_parser(emu);
+            for ch in &chars {
+                let _ = parser.print_char(&mut buf, 0, &mut caret, *ch);
+            }
+            Ok(buf)
+        }
+    }));
+    let how = match ext {
+        Some(ext) => format!("loading x.{ext} = UTF-8 BOM + UTF-8 of \"{shown}\""),
+        None => format!("feeding \"{shown}\" char by char to the {} parser on a {} {} buffer", stream::EMUS[emu as usize], BUFFER_TYPES[(c.btype % 5) as usize], if c.doc { "document" } else { "terminal" }),
+    };
+    let buf = match run {
+        Ok(Ok(b)) => b,
+        Ok(Err(_)) => return Verdict::pass(false, format!("{src}:load_err")),
+        Err(_) => {
+            let rec = icyv::panics::take().unwrap_or_default();
+            // every stored value may still be valid: a panic on wide input is C01's subject, not this property's
+            return Verdict::discard(format!("engine panic \"{}\" at {}:{} ({how})", rec.msg, rec.file, rec.line));
+        }
+    };
+    if let Some(b) = scan_buffer_cells(&buf).first() {
+        return Verdict::fail(format!("invalid_char.cell|source={src}"), format!("after {how}: {}", b.describe()));
+    }
+    if let Some((which, e)) = scan_buffer_strings(&buf).into_iter().next() {
+        return Verdict::fail(format!("invalid_utf8.{which}|source={src}"), format!("after {how}: {which} is not UTF-8: {e}"));
+    }
+    let class = format!(
+        "{src}:{}:{}",
+        if ext.is_some() { "bom_file".to_string() } else { format!("{}{}", BUFFER_TYPES[(c.btype % 5) as usize], if c.doc { "+doc" } else { "" }) },
+        if surrogate_low { "low16_surrogate" } else if wide > 0 { "wide" } else { "latin1" }
+    );
+    Verdict::pass(wide > 0, class)
+}
+
+// ------------------------------------------------------------------------------------------------
 
 fn main() {
     // an invalid value aborts the worker under the UB-check profile; thousands of such cases must not each write a core file
@@ -1650,11 +1959,14 @@ fn main() {
          combination) and PSF2 (flags bit 0) fonts followed by the optional unicode table written from the PSF specification: per glyph 0..=3 values, optional sequences, terminator; values from \
          {ASCII, Latin-1, 0xD7FF, 0xD800, 0xDBFF, 0xDC00, 0xDFFF, 0xE000, 0xFFFD, 0xFFFE, 0xFFFF, any 16-bit; PSF2 also > 0xFFFF, > 0x10FFFF and ill-formed UTF-8}; table complete, one list short / long, \
          terminator missing, stray byte / value at the end, absent; table bit set or not; the same four routes (format x edge value x position x variant x route enumerated). macros: DECDMAC definitions in hex and text \
-         encoding with bytes 0x80..0xFF (all 256 values x 4 forms and 21 ill-formed UTF-8 byte runs x 2 encodings enumerated), invoked 0..=2 times. \
+         encoding with bytes 0x80..0xFF (all 256 values x 4 forms and 21 ill-formed UTF-8 byte runs x 2 encodings enumerated), invoked 0..=2 times. scalar_streams: parser input as `char` above U+00FF (a front end on a UTF-8 connection decodes before feeding): every parser (14 configurations) x 5 buffer types x \
+         terminal / document buffer x 30 characters (encoding-form boundaries, supplementary characters whose low 16 bits are 0xD800..0xE07F) x ~85 placements (alone, after each lead-in of the \
+         emulation, CSI parameter / intermediate / final, REP target and count, avatar repeat char and count, @X / Ctrl-A / pipe codes, ATASCII / Viewdata escapes, OSC / APS / DCS strings, macro bodies, \
+         music) enumerated, 1..=4 such pieces generated; the same text as BOM-marked UTF-8 file through the .ans/.avt/.pcb/.msg/.an1/.asc loaders. \
          Observation: the raw u32 of every stored cell (Line::chars), of every cell returned by Layer::get_char / Buffer::get_char and of every BitFont::glyphs key via read_volatile; \
          from_utf8 on a volatile byte copy of every layer title, font name, SAUCE string, parser.parse_string / macro_dcs. Err / None results are accepted. \
          Non-trivial: the input carries a non-scalar number (surrogate or > 0x10FFFF) in a char field the loader reaches (non-empty DECFRA rectangle; clipboard cell inside w*h; icy cell in a \
-         chunk whose rows are stored; glyph count > 0xD800 with the font accepted; a surrogate / non-scalar / ill-formed entry in a unicode table whose mode bit is set, font accepted), ill-formed UTF-8 in a title / font name, a byte >= 0x80 in a SAUCE text field, or a byte >= 0x80 in an invoked macro body. Cases that fail are not counted (they are violations or excluded_known). Distinct by case hash.",
+         chunk whose rows are stored; glyph count > 0xD800 with the font accepted; a surrogate / non-scalar / ill-formed entry in a unicode table whose mode bit is set, font accepted), ill-formed UTF-8 in a title / font name, a byte >= 0x80 in a SAUCE text field, a byte >= 0x80 in an invoked macro body, or an input char above U+00FF in a scalar stream. Cases that fail are not counted (they are violations or excluded_known). Distinct by case hash.",
     );
     eng.assume("a scan sees materialised values only; an invalid char that exists transiently (e.g. as a HashMap lookup key in BitFont::calculate_checksum / to_psf2_bytes) leaves no trace and is not observed");
     eng.assume("SAUCE record layout from the SAUCE rev. 5 document; .icy chunk layout from doc/FileFormats/ICEDFormat.md; the PNG container is written with the png crate");
@@ -1729,6 +2041,23 @@ fn main() {
 
     eng.enumerated_with_class(PartCfg::new("macro_bytes", 0, 0).isolated().heap_cap(512 << 20).shrink_budget(400).exhaustive(true).threads(1), 3 * MACRO_TABLE_BASE, macro_table, check_macro, |c| format!("source={}", macro_src(c)));
     eng.generated_with_class(PartCfg::new("macros", 100_000, 1_000_000).isolated().heap_cap(512 << 20).shrink_budget(400), macro_strategy, check_macro, |c| format!("source={}", macro_src(c)));
+
+    // (vi) scalar streams
+    let pairs = scalar_pairs();
+    let points = scalar_points();
+    let total = pairs.len() as u64 * points.len() as u64 * 11;
+    eng.enumerated_with_class(
+        PartCfg::new("scalar_table", 0, 0).isolated().heap_cap(512 << 20).shrink_budget(400).exhaustive(true).threads(8),
+        total,
+        move |i| scalar_table(&pairs, &points, i),
+        check_scalar,
+        |c| format!("source={}", scalar_src(c)),
+    );
+    eng.extra(
+        "steered_away",
+        icyv::serde_json::json!("scalar parts: where the character under test is an Avatar repeat count or goto coordinate only U+0100..U+0800 are used (the engine loops / allocates in proportion to the character value: C03's subject)"),
+    );
+    eng.generated_with_class(PartCfg::new("scalar_streams", 60_000, 1_000_000).isolated().heap_cap(512 << 20).shrink_budget(400), scalar_strategy, check_scalar, |c| format!("source={}", scalar_src(c)));
 
     eng.run();
 }
